@@ -70,7 +70,9 @@ def draw_inputs(c, rng, lo=-2, hi=2):
             inp["im"] = arr(c["fshapes"][c["imk"] - 1], dens[c["imk"] - 1])
     if op in ("cp", "p2"):
         inp["hasw"] = bool(c["hasw"])
-        inp["w"] = arr([c["wlen"]]) if c["hasw"] else np.zeros(0)
+        # one weight per component, shape (R,) -- or the (wrong) shape the configuration asks for: (R,1), (R,R), 0-d ...
+        wsh = tuple(c.get("wshape", [c["wlen"]])) if c["hasw"] else (0,)
+        inp["w"] = np.asarray(arr(wsh), dtype=np.float64).reshape(wsh)
     if op == "cp":
         inp["mask"] = rng.integers(0, 2, size=tuple(f[0] for f in c["fshapes"])).astype(np.float64)
     if op == "tucker":
@@ -100,6 +102,23 @@ def draw_inputs(c, rng, lo=-2, hi=2):
             ps.append(P)
         inp["ps"] = ps                                        # integer numerators ...
         inp["pden"] = int(c.get("pden", 1))                   # ... over this common denominator
+    if c.get("zero", "none") != "none":
+        # an exactly-zero tensor: one whole part (a factor, the core, or the weights) is zero
+        parts = ["f%d" % k for k in range(len(inp["fs"]))] + (["core"] if op == "tucker" else []) + (["w"] if inp.get("hasw") else [])
+        which = parts[int(rng.integers(len(parts)))]
+        if which == "core":
+            inp["core"][...] = 0.0
+        elif which == "w":
+            inp["w"][...] = 0.0
+        else:
+            inp["fs"][int(which[1:])][...] = 0.0
+    if c.get("tmag", 0):
+        # TOTAL magnitude: one whole part times 2^tmag, nothing compensates: tensor, views and norm scale by exactly 2^tmag
+        parts = ["f%d" % k for k in range(len(inp["fs"]))] + (["core"] if op == "tucker" else []) + (["w"] if inp.get("hasw") else [])
+        inp["tmag"] = {"e": int(c["tmag"]), "part": parts[int(rng.integers(len(parts)))]}
+    if c.get("alldtype", "float64") != "float64":
+        inp["alldtype"] = c["alldtype"]
+        inp.setdefault("dens", list(c["dens"])); inp.setdefault("dtypes", list(c["dtypes"])); inp.setdefault("cden", 1); inp.setdefault("imk", 0)
     if c.get("mag", 0):
         inp["mag"] = draw_mag(op, inp, int(c["mag"]), rng)
     if c.get("late"):
@@ -177,7 +196,8 @@ def inputs_json(c, inp):
         out["im"] = jt(inp["im"])
     if "hasw" in inp:
         out["hasw"] = inp["hasw"]
-        out["w"] = [int(x) for x in inp["w"]]
+        out["w"] = [int(x) for x in np.asarray(inp["w"]).ravel()]
+        out["wshape"] = [int(x) for x in np.shape(inp["w"])] if inp["hasw"] else []
     if "mask" in inp:
         out["mask"] = jt(inp["mask"])
     if "core" in inp:
@@ -185,6 +205,8 @@ def inputs_json(c, inp):
     if "ps" in inp:
         out["ps"] = [jt(p) for p in inp["ps"]]
         out["pden"] = int(inp.get("pden", 1))
+    if "tmag" in inp:
+        out["tmag"] = {"e": int(inp["tmag"]["e"]), "part": inp["tmag"]["part"]}
     if "negzero" in inp:
         out["negzero"] = [int(x) for x in inp["negzero"]]
     if "mag" in inp:
@@ -203,7 +225,7 @@ def inputs_from_json(c, j):
         inp["im"] = as_float(j["im"]["data"]).reshape(j["im"]["shape"])
     if "hasw" in j:
         inp["hasw"] = j["hasw"]
-        inp["w"] = as_float(j["w"])
+        inp["w"] = as_float(j["w"]).reshape(tuple(j["wshape"])) if j["hasw"] and "wshape" in j else as_float(j["w"])
     if "mask" in j:
         inp["mask"] = as_float(j["mask"]["data"]).reshape(j["mask"]["shape"])
     if "core" in j:
@@ -211,6 +233,10 @@ def inputs_from_json(c, j):
     if "ps" in j:
         inp["ps"] = [as_float(p["data"]).reshape(p["shape"]) for p in j["ps"]]
         inp["pden"] = int(j.get("pden", 1))
+    if "tmag" in j:
+        inp["tmag"] = dict(j["tmag"])
+    if c.get("alldtype", "float64") != "float64":
+        inp["alldtype"] = c["alldtype"]
     if "negzero" in j:
         inp["negzero"] = list(j["negzero"])
     if "mag" in j:
@@ -240,6 +266,19 @@ def fresh(op, inp):
         fs[k][:, r] = np.where(col == 0, -0.0, col)
     if "mag" in inp:
         w, core = apply_mag(op, inp["mag"], fs, w, core)
+    if "tmag" in inp:
+        f = np.ldexp(1.0, inp["tmag"]["e"])
+        part = inp["tmag"]["part"]
+        if part == "core":
+            core = core * f
+        elif part == "w":
+            w = w * f
+        else:
+            fs[int(part[1:])] = fs[int(part[1:])] * f
+    adt = inp.get("alldtype")
+    if adt:
+        w = None if w is None else w.astype(adt)
+        core = None if core is None else core.astype(adt)
     if op == "cp":
         return (w, fs)
     if op == "tucker":
@@ -247,7 +286,7 @@ def fresh(op, inp):
     if op in ("tt", "tr", "ttm"):
         return fs
     if op == "p2":
-        return (w, fs, [p / float(inp.get("pden", 1)) for p in inp["ps"]])
+        return (w, fs, [(p / float(inp.get("pden", 1))).astype(adt or "float64") for p in inp["ps"]])
     raise ValueError(op)
 
 
@@ -291,14 +330,17 @@ def _rank_json(rank):
     return [int(x) for x in rank]
 
 
-def _norm_json(v):
+def _norm_json(v, unscale_by=1.0):
+    """norm v (times the exact power of two that undoes a total-magnitude scaling): squared and quantised; iszero = exactly 0"""
     v = float(v)
+    iszero = v == 0.0
+    v = v * unscale_by
     q3, ok3 = qi(v * v, 1000)
     q0, ok0 = qi(v * v, 1)
-    return {"has": True, "fin0": ok0, "fin3": ok3, "q3": q3, "q0": q0}
+    return {"has": True, "fin0": ok0, "fin3": ok3, "q3": q3, "q0": q0, "iszero": bool(iszero)}
 
 
-NO_NORM = {"has": False, "fin0": False, "fin3": False, "q3": 0, "q0": 0}
+NO_NORM = {"has": False, "fin0": False, "fin3": False, "q3": 0, "q0": 0, "iszero": False}
 
 
 def blank_run(op):
@@ -324,11 +366,7 @@ def run_tucker_options(inp, how, skip, tr, modes):
     op = "tucker"
     r = blank_run(op)
     exact = [True]
-
-    def T(a):
-        j, ex = jt_exact(a)
-        exact[0] = exact[0] and ex
-        return j
+    T = make_T(inp, exact, out_scale(inp, skip))
 
     def mk():
         return tk.TuckerTensor(fresh(op, inp)) if how == "object" else fresh(op, inp)
@@ -353,11 +391,37 @@ def run_tucker_options(inp, how, skip, tr, modes):
     return r
 
 
-def out_scale(inp):
-    sc = 1
-    for d in inp.get("dens", []):
-        sc *= d
-    return sc * inp.get("cden", 1)
+def out_scale(inp, skip=-1):
+    """What the results are multiplied by so that they are the integers the specification computes from the logged
+    numerators: PROD of the denominators of the parts that enter the contraction, times 2^-tmag."""
+    sc = 1.0
+    for k, d in enumerate(inp.get("dens", [])):
+        if k != skip:
+            sc *= d
+    sc *= inp.get("cden", 1)
+    if "tmag" in inp:
+        sc *= np.ldexp(1.0, -inp["tmag"]["e"])
+    return sc
+
+
+def make_T(inp, exact, scale):
+    cplx = inp.get("imk", 0) > 0
+
+    def T(a):
+        a = np.asarray(a)
+        if cplx:
+            j, ex = jt_exact(np.real(a) * scale)
+            ji, exi = jt_exact(np.imag(a) * scale)
+            j["im"] = ji["data"]
+            ex = ex and exi
+        else:
+            if np.iscomplexobj(a):
+                exact[0] = exact[0] and bool(np.all(np.imag(a) == 0))
+                a = np.real(a)
+            j, ex = jt_exact(a * scale if scale != 1 else a)
+        exact[0] = exact[0] and ex
+        return j
+    return T
 
 
 def late_object(op, inp):
@@ -428,22 +492,8 @@ def run_views(op, inp, how, shared=False, objfactory=None):
     r = blank_run(op)
     exact = [True]
     scale = out_scale(inp)
-    cplx = inp.get("imk", 0) > 0
-
-    def T(a):
-        a = np.asarray(a)
-        if cplx:
-            j, ex = jt_exact(np.real(a) * scale)
-            ji, exi = jt_exact(np.imag(a) * scale)
-            j["im"] = ji["data"]
-            ex = ex and exi
-        else:
-            if np.iscomplexobj(a):
-                exact[0] = exact[0] and bool(np.all(np.imag(a) == 0))
-                a = np.real(a)
-            j, ex = jt_exact(a * scale if scale != 1 else a)
-        exact[0] = exact[0] and ex
-        return j
+    T = make_T(inp, exact, scale)
+    nscale = np.ldexp(1.0, -inp["tmag"]["e"]) if "tmag" in inp else 1.0
 
     # 1. validation / construction
     try:
@@ -491,9 +541,9 @@ def run_views(op, inp, how, shared=False, objfactory=None):
         r["unf"] = unf
         r["vec"] = T(mk().to_vec() if obj else api["to_vec"](mk()))
         if obj:
-            r["norm"] = _norm_json(mk().norm())
+            r["norm"] = _norm_json(mk().norm(), nscale)
         elif api["norm"] is not None:
-            r["norm"] = _norm_json(api["norm"](mk()))
+            r["norm"] = _norm_json(api["norm"](mk()), nscale)
         if op == "cp":
             r["masked"] = T(api["to_tensor"](mk(), mask=inp["mask"].copy()))
         if op == "ttm":
